@@ -127,6 +127,8 @@ def check_protected(case):
     mine = [t for t in g.triples if t[0] == v]
     d = transform.dereify_edges(g, m)
     f = []
+    if d.top != g.top:
+        f.append(('protected-node-collapsed:top-moved', 'Graph(%s, top=%r): top became %r' % (short(g.triples, 240), g._top, d.top)))
     it = iter(d.triples)
     if not all(any(t == u for u in it) for t in mine):
         f.append(('protected-node-collapsed:' + case['why'], 'Graph(%s, top=%r): node %r lost %r' % (
@@ -211,19 +213,19 @@ def _protected_cases(draw):
     spec = {'name': 'amr'}
     table = build_table(spec)
     role, concept, sr, tr = pick(draw, table['reifications'])
-    why = draw(st.sampled_from(['top', 'third-relation', 'referenced']))
+    why = draw(st.sampled_from(['top', 'top-implicit', 'third-relation', 'referenced']))
     x = '_' if draw(st.booleans()) else 'r'
     ts = [['a', ':instance', 'alpha'], ['b', ':instance', 'beta'], [x, ':instance', concept], [x, sr, 'a'], [x, tr, 'b']]
     top = 'a'
-    if why == 'top':
-        top = x
+    if why in ('top', 'top-implicit'):
+        top = x if why == 'top' else None       # implicit: the first triple's source is the top
         ts = [ts[2], ts[3], ts[4], ts[0], ts[1]]
     elif why == 'third-relation':
         ts.insert(draw(st.integers(3, len(ts))), [x, draw(st.sampled_from([':polarity', ':ARG3', ':mod', ':time'])), draw(st.sampled_from(['-', 'b', 'a', '"s"']))])
     else:
         # the reference may come before or after the node's own triples (a forward re-entrancy in the text)
         ts.insert(draw(st.integers(1, len(ts))), [draw(st.sampled_from(['a', 'b'])), draw(st.sampled_from([':ARG0', ':mod', ':topic'])), x])
-    if draw(st.booleans()) and why != 'top':
+    if draw(st.booleans()) and why not in ('top', 'top-implicit'):
         # written the usual way: hang it under a, decode to get markers
         pass
     return {'k': 'prot', 'g': {'triples': ts, 'top': top, 'epi': []}, 'node': x, 'why': why, 'model': spec}
